@@ -56,6 +56,34 @@ func corner() []pipe.Scenario {
 		Pkgs:   []pipe.Pkg{{Dir: "", Name: "root", Types: []pipe.Type{{Name: "T", Enabled: []string{"g1"}}}}},
 		HasSum: true, SumJunk: "example.com/m h1:old=\n"}, Entry: []string{"."}, Base: "gengo",
 		Gens: []pipe.Gen{{Name: "g1", Steps: map[string]pipe.Step{"example.com/m T": {Body: "var V = 1\n"}}}}})
+	out = append(out, importChains()...)
+	return out
+}
+
+// a requested package imports (directly and transitively) packages of the module that were NOT requested and have work
+// to do: tagged types whose output is missing / outdated, stale <base>.* files.  Without All nothing below them may change.
+func importChains() []pipe.Scenario {
+	on := []string{"g1"}
+	m := pipe.Module{ModPath: "example.com/m", GoVer: "1.22", Pkgs: []pipe.Pkg{
+		{Dir: "app", Name: "app", Imports: []string{"dep"}, Types: []pipe.Type{{Name: "A", Enabled: on}}},
+		{Dir: "dep", Name: "dep", Imports: []string{"dep/leaf"}, Types: []pipe.Type{{Name: "D", Enabled: on}}},
+		{Dir: "dep/leaf", Name: "leaf", Types: []pipe.Type{{Name: "L", Enabled: on}}},
+		{Dir: "other", Name: "other", Types: []pipe.Type{{Name: "O", Enabled: on}}}},
+		Files: []pipe.File{
+			{Path: "dep/zz_generated.old.go", Content: "package dep\n\n// stale output\n"},
+			{Path: "dep/leaf/zz_generated.g1.go", Content: "package leaf\n\n// previous output of g1\n"},
+			{Path: "other/zz_generated.old.go", Content: "package other\n\n// stale output\n"}}}
+	steps := map[string]pipe.Step{}
+	for _, k := range []string{"app A", "dep D", "dep/leaf L", "other O"} {
+		steps["example.com/m/"+k] = pipe.Step{Body: "var V = 1\n"}
+	}
+	var out []pipe.Scenario
+	for _, entry := range [][]string{{"./app"}, {"./dep"}, {"./app", "./dep"}, {"./dep/leaf", "./app"}, {"./app/..."}} {
+		for _, force := range []bool{false, true} {
+			out = append(out, pipe.Scenario{Module: m, Entry: entry, Force: force, Base: "zz_generated", Gens: []pipe.Gen{{Name: "g1", Steps: steps}}})
+		}
+	}
+	out = append(out, pipe.Scenario{Module: m, Entry: []string{"./app"}, All: true, Base: "zz_generated", Gens: []pipe.Gen{{Name: "g1", Steps: steps}}})
 	return out
 }
 
@@ -134,6 +162,14 @@ func (prop) Run(in json.RawMessage, scratch string) core.Result {
 		res.Notes = append(res.Notes, "synthetic module rejected by the loader: "+sum.Err+obs.Run.Stderr)
 		return res
 	}
+	// "selected" is decided from the entrypoint patterns of the scenario, not taken from gengo's loader: the loader's
+	// direct flag is part of the code under test (pkg/types/load.go feeds the `!All && !direct` skip of Execute)
+	loaderWorld := obs.Run.World
+	reqWorld, differ := pipe.RequestedWorld(loaderWorld, sc.Entry)
+	obs.Run.World = reqWorld
+	if len(differ) > 0 {
+		res.Notes = append(res.Notes, "the loader's direct flag differs from the entrypoint patterns for: "+strings.Join(differ, ", "))
+	}
 	res.Coq = "(mk_case " + obs.CoqRunFields(sc) + ")"
 	res.Tags = tags(sc, obs, sum)
 	res.Nontrivial = sum.Calls > 0 && len(sc.Module.Files) > 0
@@ -206,6 +242,31 @@ func tags(sc pipe.Scenario, obs *pipe.Observation, sum pipe.Summary) []string {
 	}
 	if len(obs.Run.World.Pkgs) > 1 {
 		t = append(t, "multi-package")
+	}
+	names := map[string]bool{}
+	for _, g := range sc.Gens {
+		names[g.Name] = true
+	}
+	unsel, work := false, false
+	for _, p := range obs.Run.World.Pkgs { // Direct = requested by the entrypoint patterns (see Run)
+		if p.Direct {
+			continue
+		}
+		unsel = true
+		for _, ty := range p.Types {
+			for _, g := range ty.Enabled {
+				work = work || names[g]
+			}
+		}
+		for _, f := range p.Files {
+			work = work || strings.HasPrefix(f, sc.Base+".")
+		}
+	}
+	if unsel {
+		t = append(t, "imports-unrequested-package")
+	}
+	if work && !sc.All {
+		t = append(t, "unrequested-import-has-work(not-all)")
 	}
 	return t
 }
